@@ -226,6 +226,7 @@ def compare(R, recs, stream, mechanism_of=None, check_parse=True, sample_every=9
                 R.traces += 1
             v = spec_verdict(ix, ms)
             bump('spec:' + v)
+            case['model_agrees'] = (c != 'differ')
             if v == 'violation':
                 mech = mechanism_of(r, case, ix, ms) if mechanism_of else 'peg-semantics'
                 R.counterexample(stream, mech, case, ms, ix)
